@@ -1422,14 +1422,17 @@ def install(reg):
                 out = DTypeV(promoted_dtype(ex, args[0].seq))
                 out.promotion_of = args[0].seq
                 return out
-        if len(args) == 2 and not kw:
+        if len(args) >= 2 and not kw and not any(isinstance(a, V.StarSeq) for a in args):
             ds = []
             for a in args:
                 if isinstance(a, (Arr, Poly)):
                     ds.append(a.dtype)
                 else:
                     ds.append(as_dtype(ex, a, node))
-            return DTypeV(result_type(ds[0], ds[1]))
+            out = ds[0]
+            for d in ds[1:]:
+                out = result_type(out, d)          # numpy's promotion, folded left to right over the arguments
+            return DTypeV(out)
         raise U("numpy.result_type of these values", node)
 
     fdiv = z3.Function("floor_div", R, R, R)
